@@ -12,11 +12,14 @@ Open Scope Z_scope.
 Definition rblk : Type := (N * N * Z * Z * list N)%type.
 
 Inductive xop :=
-| XPeer (pool : list N) (b : rblk) (e : N)    (* connectBlock of a peer block; [pool] = Hash ids the
-                                                 mempool reported just before the delivery; [e] = error class *)
+| XPeer (b : rblk) (e : N)                     (* connectBlock of a peer block; [e] = error class *)
 | XSelf (b : rblk) (e : N) (kept : list N)    (* producer block handed to the chain; [kept] = what was stored *)
 | XDisc                                        (* the tip was disconnected (re-organisation) *)
-| XPool (i : N) (acc : bool).                  (* transaction i offered to the mempool; accepted? *)
+| XPool (ms : list N) (acc : bool)             (* a transaction / the group with these members offered to the mempool; accepted? *)
+| XSnap (hs : list N)                          (* just before a delivery: the Hash ids (of all table entries so far)
+                                                  for which the mempool answers "exists" *)
+| XSync (hs : list N).                         (* the same question after a delivery that disconnected blocks,
+                                                  asked behind the EventDelBlock messages *)
 
 Inductive case :=
 | Case (c : cfg) (gid : N) (gtime : Z) (univ : list tx) (ops : list xop)
@@ -24,7 +27,7 @@ Inductive case :=
        (look : list (Z * N))        (* per table entry: height at which GetTx(Hash) finds it (-1: not found) and the FullHash id found *)
        (hasq : list bool).          (* per table entry: GetDuplicateTxHashList (height tip+1) reports it *)
 
-Definition dummy_tx : tx := mkTx 0 0 0 0 0 0 0 false.
+Definition dummy_tx : tx := mkTx 0 0 0 0 0 0 0 false 0 0 0.
 
 Definition tx_at (u : list tx) (k : N) : tx := nth (N.to_nat k) u dummy_tx.
 
@@ -37,23 +40,35 @@ Definition err_code (e : err) : N :=
 Definition idx_ok (u : list tx) (r : rblk) : bool :=
   let '(_, _, _, _, xs) := r in forallb (fun k => (N.to_nat k <? length u)%nat) xs.
 
+(** the pool of the model and the mempool's answers agree on every Hash id of the table *)
+Definition snap_ok (u : list tx) (p : list pent) (hs : list N) : bool :=
+  forallb (fun t => Bool.eqb (memN (th t) hs) (memN (th t) (pool_hashes p))) u.
+
 (** fold the model over the history, comparing the per-operation observables *)
-Fixpoint agree (c : cfg) (u : list tx) (s : st) (ops : list xop) : option st :=
+Fixpoint agree (c : cfg) (u : list tx) (n : node) (ops : list xop) : option node :=
   match ops with
-  | [] => Some s
-  | XPeer pool r e :: ops' =>
-      let '(s', me) := connect_peer c s pool (blk_of u r) in
-      if idx_ok u r && N.eqb (err_code me) e then agree c u s' ops' else None
+  | [] => Some n
+  | XPeer r e :: ops' =>
+      let me := snd (connect_peer c (n_st n) (pool_hashes (n_pool n)) (blk_of u r)) in
+      if idx_ok u r && N.eqb (err_code me) e then agree c u (nstep c n (NPeer (blk_of u r))) ops' else None
   | XSelf r e kept :: ops' =>
-      let '(s', me, k) := connect_self c s (blk_of u r) in
+      let '(_, me, k) := connect_self c (n_st n) (blk_of u r) in
       if idx_ok u r && N.eqb (err_code me) e && list_eqb N.eqb (map tfull k) (map (fun i => tfull (tx_at u i)) kept)
-      then agree c u s' ops' else None
+      then agree c u (nstep c n (NSelf (blk_of u r))) ops' else None
   | XDisc :: ops' =>
-      match chain s with
-      | _ :: _ :: _ => agree c u (disconnect c s) ops'
+      match chain (n_st n) with
+      | _ :: _ :: _ => agree c u (nstep c n NDisc) ops'
       | _ => None
       end
-  | XPool _ _ :: ops' => agree c u s ops'
+  | XPool ms acc :: ops' =>
+      if forallb (fun k => (N.to_nat k <? length u)%nat) ms
+      then agree c u (if acc then nstep c n (NPool (map (tx_at u) ms)) else n) ops'
+      else None
+  | XSnap hs :: ops' =>
+      if snap_ok u (n_pool n) hs then agree c u n ops' else None
+  | XSync hs :: ops' =>
+      if forallb (fun h => memN h (pool_hashes (n_pool n ++ n_limbo n))) hs
+      then agree c u (nstep c n (NSync hs)) ops' else None
   end.
 
 Definition blk_sig (b : blk) : N * N * Z * Z * list N := (b_id b, b_par b, b_h b, b_time b, map tfull (b_txs b)).
@@ -67,7 +82,8 @@ Definition sig_eqb (a b : N * N * Z * Z * list N) : bool :=
 Definition table_ok (u : list tx) : bool :=
   forallb (fun a => forallb (fun b =>
      Bool.eqb (N.eqb (th a) (th b)) (N.eqb (tk a) (tk b))
-     && (negb (N.eqb (th a) (th b)) || (texp a =? texp b))
+     && (negb (N.eqb (th a) (th b)) || ((texp a =? texp b) && (tgc a =? tgc b) && N.eqb (tnext a) (tnext b)
+                                        && (tfee a =? tfee b) && (tchain a =? tchain b)))
      && (negb (N.eqb (tfull a) (tfull b)) || (N.eqb (th a) (th b) && Bool.eqb (tsig a) (tsig b)))) u) u.
 
 Definition find_occ (l : list blk) (h : N) : option (Z * N) :=
@@ -95,8 +111,9 @@ Fixpoint forallb2 {A B} (f : A -> B -> bool) (a : list A) (b : list B) : bool :=
 Definition model_ok (c : cfg) (g : blk) (u : list tx) (ops : list xop) (final : list blk)
            (look : list (Z * N)) (hasq : list bool) : bool :=
   table_ok u &&
-  match agree c u (init g) ops with
-  | Some s =>
+  match agree c u (ninit g) ops with
+  | Some n =>
+      let s := n_st n in
       list_eqb sig_eqb (map blk_sig (chain s)) (map blk_sig final)
       && forallb2 (fun t o => Bool.eqb (memN (th t) (index s)) (negb (fst o =? -1))) u look
       && forallb2 (fun t q => Bool.eqb (has_tx s t) q) u hasq
@@ -106,36 +123,38 @@ Definition model_ok (c : cfg) (g : blk) (u : list tx) (ops : list xop) (final : 
 (** spec side: the chain read back satisfies the property, the index finds exactly the chain's
     transactions, and the mempool accepted no mis-signed offer *)
 Definition pool_ok (u : list tx) (ops : list xop) : bool :=
-  forallb (fun o => match o with XPool i acc => negb acc || tsig (tx_at u i) | _ => true end) ops.
+  forallb (fun o => match o with XPool ms acc => negb acc || forallb (fun i => tsig (tx_at u i)) ms | _ => true end) ops.
 
 Definition spec_ok (c : cfg) (u : list tx) (ops : list xop) (final : list blk) (look : list (Z * N)) : bool :=
   spec_chain c final && forallb2 (look_eqb final) u look && pool_ok u ops.
 
 (** known finding 1: the first block that breaks the property on the chain the node built is a
     peer block whose only flaw is that some of its transactions fail CheckSign, each of them with
-    a Hash() the mempool reported as existing *)
+    a Hash() the mempool reported as existing in the last answer before the delivery ([pool]) *)
 Definition fresh (l : list blk) (txs : list tx) : bool :=
   nodupN (map th txs) && forallb (fun t => negb (memN (th t) (map th (chain_txs l)))) txs.
 
-Fixpoint first_bad (c : cfg) (u : list tx) (l : list blk) (ops : list xop) : N :=
+Fixpoint first_bad (c : cfg) (u : list tx) (l : list blk) (pool : list N) (ops : list xop) : N :=
   match ops with
   | [] => 0%N
-  | XPeer pool r e :: ops' =>
+  | XPeer r e :: ops' =>
       if N.eqb e 0 then
         let b := blk_of u r in
-        let fine := fresh l (b_txs b) && forallb (spec_tx c (b_h b) (b_time b)) (b_txs b) in
-        if fine && forallb tsig (b_txs b) then first_bad c u (b :: l) ops'
+        let fine := fresh l (b_txs b) && spec_block c (b_h b) (b_time b) (b_txs b) in
+        if fine && forallb tsig (b_txs b) then first_bad c u (b :: l) pool ops'
         else if fine && forallb (fun t => tsig t || memN (th t) pool) (b_txs b) then 1%N else 2%N
-      else first_bad c u l ops'
+      else first_bad c u l pool ops'
   | XSelf r e kept :: ops' =>
       if N.eqb e 0 then
         let '(i, p, h, t, _) := r in
         let b := mkBlk i p h t (map (tx_at u) kept) in
-        if fresh l (b_txs b) && forallb (spec_tx c h t) (b_txs b) && forallb tsig (b_txs b)
-        then first_bad c u (b :: l) ops' else 2%N
-      else first_bad c u l ops'
-  | XDisc :: ops' => first_bad c u (tl l) ops'
-  | XPool _ _ :: ops' => first_bad c u l ops'
+        if fresh l (b_txs b) && spec_block c h t (b_txs b) && forallb tsig (b_txs b)
+        then first_bad c u (b :: l) pool ops' else 2%N
+      else first_bad c u l pool ops'
+  | XDisc :: ops' => first_bad c u (tl l) pool ops'
+  | XPool _ _ :: ops' => first_bad c u l pool ops'
+  | XSnap hs :: ops' => first_bad c u l hs ops'
+  | XSync hs :: ops' => first_bad c u l hs ops'
   end.
 
 Definition check_case (k : case) : verdict :=
@@ -145,12 +164,12 @@ Definition check_case (k : case) : verdict :=
       let fin := map (blk_of u) final in
       let m := model_ok c g u ops fin look hasq in
       let s := spec_ok c u ops fin look in
-      (m, s, if s then 0%N else if N.eqb (first_bad c u [g] ops) 1 then 1%N else 0%N)
+      (m, s, if s then 0%N else if N.eqb (first_bad c u [g] [] ops) 1 then 1%N else 0%N)
   end.
 
 (** diagnosis (not used by the verdict): position of the first operation on which model and node
     differ, and the individual parts of both judgements *)
-Fixpoint agree_pos (c : cfg) (u : list tx) (s : st) (ops : list xop) (n : N) : N + st :=
+Fixpoint agree_pos (c : cfg) (u : list tx) (s : node) (ops : list xop) (n : N) : N + node :=
   match ops with
   | [] => inr s
   | o :: ops' =>
@@ -165,9 +184,9 @@ Definition diag_case (k : case) :=
   | Case c gid gtime u ops final look hasq =>
       let g := mkBlk gid 0%N 0 gtime [] in
       let fin := map (blk_of u) final in
-      match agree_pos c u (init g) ops 0%N with
+      match agree_pos c u (ninit g) ops 0%N with
       | inl n => (table_ok u, Some n, false, false, false, (spec_unique fin, spec_checked c fin, spec_signed fin), forallb2 (look_eqb fin) u look, pool_ok u ops)
-      | inr s => (table_ok u, None,
+      | inr nd => let s := n_st nd in (table_ok u, None,
                   list_eqb sig_eqb (map blk_sig (chain s)) (map blk_sig fin),
                   forallb2 (fun t o => Bool.eqb (memN (th t) (index s)) (negb (fst o =? -1))) u look,
                   forallb2 (fun t q => Bool.eqb (has_tx s t) q) u hasq,
